@@ -1029,4 +1029,124 @@ theorem expected_rows (md : CallerMeta) (n : Nat) (nps : Props) (hnd : (nps.map 
   · rw [if_neg hn]
     intro kp hm; exact (hok kp hm).2
 
+/-! ### the error branch: a variable-length property whose elements differ in dtype or rank -/
+
+/-- what the codec (C11) has to provide on the error side: elements that do not share one dtype and one
+rank are refused with `ValueError` -/
+def VlenCodec.Rejects (c : VlenCodec) : Prop :=
+  ∀ es, ¬ Geff.Vlen.Homogeneous es → c.encode es = .error .valueError
+
+theorem vlenCodec_rejects : vlenCodec.Rejects := by
+  intro es hh
+  show ofVlen (Geff.Vlen.serializeVlen es) = _
+  unfold Geff.Vlen.serializeVlen
+  rcases Geff.Vlen.serializeVlenPy_cases (es.map .arr) with ⟨l, h1, h2, _⟩ | ⟨_, h2⟩
+  · have := Geff.Vlen.map_arr_injective h1
+    subst this
+    exact absurd h2 hh
+  · rw [h2]; rfl
+
+theorem createPropsMetadata_error (name : String) (p : PropArr) (e : Err)
+    (h : createPropsMetadata name p = .error e) : e = .valueError := by
+  unfold createPropsMetadata at h
+  cases hm : metaDtype (upcast p).values with
+  | error e' =>
+    have : e' = .valueError := by
+      unfold metaDtype at hm
+      split at hm
+      · cases hm
+      · split at hm
+        · cases hm
+        · simp only [throw, throwThe, MonadExceptOf.throw, Except.error.injEq] at hm; exact hm.symm
+    rw [hm] at h
+    simp only [bind, Except.bind, Except.error.injEq] at h
+    rw [← h, this]
+  | ok dt =>
+    rw [hm] at h
+    simp only [bind, Except.bind] at h
+    cases hk : mkPropMeta name dt (isVarlen (upcast p)) with
+    | error e' =>
+      have : e' = .valueError := by
+        unfold mkPropMeta at hk
+        split at hk
+        · simp only [throw, throwThe, MonadExceptOf.throw, Except.error.injEq] at hk; exact hk.symm
+        · split at hk
+          · cases hk
+          · simp only [throw, throwThe, MonadExceptOf.throw, Except.error.injEq] at hk; exact hk.symm
+      rw [hk] at h
+      simp only [Except.error.injEq] at h
+      rw [← h, this]
+    | ok pm => rw [hk] at h; cases h
+
+/-- writing such a property fails with `ValueError`, whatever its name and whatever the store holds -/
+theorem writeProp_inhomogeneous (c : VlenCodec) (hr : c.Rejects) (pre : Path) (s : St) (name : String)
+    (es : List NdArr) (m : Option NdArr) (hh : ¬ Geff.Vlen.Homogeneous es) :
+    writeProp c pre s name ⟨.obj es, m⟩ = .error .valueError := by
+  unfold writeProp
+  cases hc : createPropsMetadata name ⟨.obj es, m⟩ with
+  | error e =>
+    rw [createPropsMetadata_error _ _ _ hc]; rfl
+  | ok r =>
+    have hr2 : r.2 = ⟨.obj es, m⟩ := by
+      unfold createPropsMetadata at hc
+      have hu : upcast ⟨.obj es, m⟩ = ⟨.obj es, m⟩ := rfl
+      rw [hu] at hc
+      cases hm : metaDtype (PVals.obj es) with
+      | error _ => rw [hm] at hc; cases hc
+      | ok dt =>
+        rw [hm] at hc
+        simp only [bind, Except.bind] at hc
+        cases hk : mkPropMeta name dt (isVarlen ⟨.obj es, m⟩) with
+        | error _ => rw [hk] at hc; cases hc
+        | ok pm => rw [hk] at hc; cases hc; rfl
+    obtain ⟨pm, p'⟩ := r
+    simp only at hr2
+    subst hr2
+    simp only [bind, Except.bind, encodeProp, hr es hh]
+
+/-- the loop stops with that `ValueError` when the properties before it are writable -/
+theorem writePropsLoop_error (c : VlenCodec) (hc : c.Lawful) (hr : c.Rejects) (pre : Path) (name : String)
+    (es : List NdArr) (m : Option NdArr) (hh : ¬ Geff.Vlen.Homogeneous es) (post : Props) :
+    ∀ (ps : Props) (s : St), (ps.map (·.1)).Nodup → (∀ kp ∈ ps, Writable kp.1 kp.2) →
+      (∀ kp ∈ ps, ∀ suf, get s (pre ++ kp.1 :: suf) = none) →
+      writePropsLoop c pre s (ps ++ (name, ⟨.obj es, m⟩) :: post) = .error .valueError := by
+  intro ps
+  induction ps with
+  | nil =>
+    intro s _ _ _
+    simp only [List.nil_append, writePropsLoop, writeProp_inhomogeneous c hr pre s name es m hh, bind, Except.bind]
+  | cons kp rest ih =>
+    intro s hnd hw hfresh
+    obtain ⟨k, p⟩ := kp
+    simp only [List.map_cons, List.nodup_cons] at hnd
+    obtain ⟨s1, h1, hframe1, _⟩ := writeProp_spec c hc pre s k p (hw _ (List.mem_cons_self ..)) (hfresh _ (List.mem_cons_self ..))
+    have hne : ∀ kp' ∈ rest, kp'.1 ≠ k := fun kp' hm hhh => hnd.1 (hhh ▸ List.mem_map.2 ⟨kp', hm, rfl⟩)
+    have hfresh1 : ∀ kp' ∈ rest, ∀ suf, get s1 (pre ++ kp'.1 :: suf) = none := by
+      intro kp' hm suf
+      rw [hframe1 _ (fun suf' => path_ne_of_name_ne pre _ _ _ _ (hne kp' hm))]
+      exact hfresh kp' (List.mem_cons_of_mem _ hm) suf
+    have := ih s1 hnd.2 (fun kp' hm => hw kp' (List.mem_cons_of_mem _ hm)) hfresh1
+    simp only [List.cons_append, writePropsLoop, h1, this, bind, Except.bind]
+
+theorem writePropsArrays_error (c : VlenCodec) (hc : c.Lawful) (hr : c.Rejects) (grp : String) (s : St)
+    (ps post : Props) (name : String) (es : List NdArr) (m : Option NdArr) (hh : ¬ Geff.Vlen.Homogeneous es)
+    (hroot : ∃ e, get s [] = some e) (hgrp : ∃ e, get s [grp] = some e)
+    (hfresh : ∀ suf, get s (grp :: PROPS :: suf) = none)
+    (hnd : (ps.map (·.1)).Nodup) (hw : ∀ kp ∈ ps, Writable kp.1 kp.2) :
+    writePropsArrays c s grp (ps ++ (name, ⟨.obj es, m⟩) :: post) none = .error .valueError := by
+  obtain ⟨e0, he0⟩ := hroot
+  obtain ⟨e1, he1⟩ := hgrp
+  have hnone : get s [grp, PROPS] = none := hfresh []
+  have hens : ensureGroup (ensureGroup (ensureGroup s []) [grp]) [grp, PROPS] = set s [grp, PROPS] (.group []) := by
+    rw [ensureGroup_of_some s [] e0 he0, ensureGroup_of_some s [grp] e1 he1, ensureGroup_of_none s _ hnone]
+  have hfresh1 : ∀ kp ∈ ps, ∀ suf, get (set s [grp, PROPS] (.group [])) ([grp, PROPS] ++ kp.1 :: suf) = none := by
+    intro kp _ suf
+    rw [get_set_other _ _ _ _ (by simp)]
+    exact hfresh _
+  unfold writePropsArrays
+  simp only [bind, Except.bind, pure, Except.pure, hens]
+  have : get (set s [grp, PROPS] (.group [])) [grp, PROPS] = some (.group []) := get_set_same _ _ _
+  rw [this]
+  exact writePropsLoop_error c hc hr [grp, PROPS] name es m hh post ps _ hnd hw hfresh1
+
 end Geff.WR
